@@ -72,13 +72,13 @@ func DecodeAction(data []byte) (Action, error) {
 	case ActionType_Output:
 		a = new(ActionOutput)
 	case ActionType_CopyTtlOut:
-		a = new(ActionHeader)
+		a = new(ActionDecNwTtl)
 	case ActionType_CopyTtlIn:
-		a = new(ActionHeader)
+		a = new(ActionDecNwTtl)
 	case ActionType_SetMplsTtl:
 		a = new(ActionMplsTtl)
 	case ActionType_DecMplsTtl:
-		a = new(ActionHeader)
+		a = new(ActionDecNwTtl)
 	case ActionType_PushVlan:
 		a = new(ActionPush)
 	case ActionType_PopVlan:
@@ -100,7 +100,7 @@ func DecodeAction(data []byte) (Action, error) {
 	case ActionType_PushPbb:
 		a = new(ActionPush)
 	case ActionType_PopPbb:
-		a = new(ActionHeader)
+		a = new(ActionDecNwTtl)
 	case ActionType_Experimenter:
 		// For Experimenter message, the length of action should be at least 10 bytes,
 		// including type(2 byte), length(2 byte), vendor(4 byte), and subtype(2 byte)
